@@ -40,6 +40,8 @@ func (e *Engine) RunRoot(fn *ssa.Function) (err error) {
 	e.rootKey = shortKey(funcKey(fn))
 	e.rootContract = e.contractFor(fn)
 	e.noteRootBudget()
+	e.tm.noStrLen = e.rootContract != nil && (e.rootContract.Flags["nostrlen"] != "" || e.rootContract.Flags["opaque_strings"] != "")
+	e.u.abstractStrings = e.rootContract != nil && e.rootContract.Flags["opaque_strings"] != ""
 	e.rootInputs = nil
 	e.registerReplayTarget(fn, e.modDir)
 	e.funcsTouched[funcKey(fn)] = true
@@ -513,6 +515,10 @@ func (e *Engine) step(s *State, fr *Frame, in ssa.Instruction) ([]*State, bool) 
 		if c.S == "false" {
 			return e.transfer(s, fr, fr.block.Succs[1], in)
 		}
+		mergeN0, mergeDepth, mergeBlk := 0, len(s.frames), fr.block // merge_coord.go
+		if s.assumes != nil {
+			mergeN0 = s.assumes.n
+		}
 		s2 := s.fork()
 		s.assume(c)
 		s.trace = append(s.trace, fmt.Sprintf("%s:T", posString(e.fset, x.Cond.Pos())))
@@ -525,6 +531,11 @@ func (e *Engine) step(s *State, fr *Frame, in ssa.Instruction) ([]*State, bool) 
 		if e.feasible(s2) {
 			fr2 := s2.top()
 			out = append(out, e.transferAll(s2, fr2, fr2.block.Succs[1], in)...)
+		}
+		if e.mergeOn() { // merge_coord.go: opt-in path merging at the join of this branch
+			if j := e.mergeTarget(mergeBlk.Parent(), mergeBlk); j != nil {
+				return e.execIfMerged(mergeN0, mergeDepth, mergeBlk.Parent(), j, out), true
+			}
 		}
 		return out, true
 	case *ssa.Return:
@@ -1055,7 +1066,9 @@ func (e *Engine) execBinOp(s *State, fr *Frame, x *ssa.BinOp) {
 			r = wrapInt(q, rt)
 		} else {
 			r = Sub(a, Mul(b, q))
-			if _, lit := litValue(b); !lit {
+			if coordModelsOn() {
+				r = e.coordRemLemma(s, a, b, r) // models_coord.go: opt-in: names the remainder, adds 0 <= a%b < b for a >= 0, b > 0
+			} else if _, lit := litValue(b); !lit {
 				// symbolic divisor: elementary facts about Go's remainder (sign of the dividend, |r| < |b|)
 				rd := e.u.Define("rem", r)
 				s.assume(And(Ite(Ge(a, IntLit(0)), Ge(rd, IntLit(0)), Le(rd, IntLit(0))),
@@ -1735,6 +1748,7 @@ func (e *Engine) checkEnsures(s *State, fr *Frame, results []Value, ret *ssa.Ret
 		return
 	}
 	resMap, resTypes := e.resultBindings(fr.fn, results)
+	e.coordCheckFresh(s, fr, results, ret) // models_coord.go: `returns_fresh` on a first-party function
 	for i, cl := range c.Ensures {
 		t, err := e.evalClause(s, fr, cl, resMap, resTypes)
 		if err != nil {
